@@ -321,3 +321,117 @@ def slice_for(theta):
     k0 = int(math.floor((theta + 7.0) / 2.0))
     k0 = max(0, min(6, k0))
     return max(0, k0 - 1), min(7, k0 + 2)
+
+
+# ------------------------------------------------------------------ histories (GeomHistory): caller-owned arrays
+def _arr(v):
+    return np.array([float(fq(x)) for x in v], dtype='float64')
+
+
+def build_owned(g, theta0):
+    """Geometry for descriptor g with EVERY array argument handed over as a caller-owned float64 ndarray (the
+    internal dtype; unit vectors un-scaled).  Returns (geometry, owned) with owned: input name -> list of arrays."""
+    import odl.tomo as T
+    cls = g['cls']
+    owned = {}
+    ang = np.array([-6.0, -4.0, -2.0, 0.0, 2.0, 4.0, 6.0])
+    if cls == 'par3deu':
+        apart = angle_partition(cls)
+    else:
+        owned['angles'] = [ang]
+        apart = odl.nonuniform_partition(ang, min_pt=-7.0, max_pt=7.0)
+    dpart = det_partition(g)
+    kw = {}
+    if g['mat']:
+        M = np.array([[float(fq(x)) for x in row] for row in g['mat']], dtype='float64')
+        owned['init_matrix'] = [M]
+        if cls == 'par2d':
+            return T.Parallel2dGeometry.frommatrix(apart, dpart, M), owned
+        if cls == 'par3dax':
+            return T.Parallel3dAxisGeometry.frommatrix(apart, dpart, M), owned
+        if cls == 'par3deu':
+            return T.Parallel3dEulerGeometry.frommatrix(apart, dpart, M), owned
+        rs, rd = float(fq(g['rs'])), float(fq(g['rd']))
+        if cls == 'fan':
+            return T.FanBeamGeometry.frommatrix(apart, dpart, rs, rd, M), owned
+        pitch = float(fq(g['dz'])) * 2 * math.pi / theta0 if g['dz'][0] != 0 else 0.0
+        return T.ConeBeamGeometry.frommatrix(apart, dpart, rs, rd, M, pitch=pitch,
+                                             offset_along_axis=float(fq(g['z0']))), owned
+    owned['translation'] = [_arr(g['t'])]
+    kw['translation'] = owned['translation'][0]
+    if g['ax']:
+        owned['det_axes_init'] = [_arr(a) for a in g['ax']]
+        if cls in ('par2d', 'fan'):
+            kw['det_axis_init'] = owned['det_axes_init'][0]
+        else:
+            kw['det_axes_init'] = owned['det_axes_init']
+    if cls in ('par2d', 'par3dax', 'par3deu') and g['p0']:
+        owned['det_pos_init'] = [_arr(g['p0'])]
+        kw['det_pos_init'] = owned['det_pos_init'][0]
+    if cls in ('fan', 'cone') and g['e']:
+        owned['src_to_det_init'] = [_arr(g['e'])]
+        kw['src_to_det_init'] = owned['src_to_det_init'][0]
+    if cls in ('par3dax', 'cone'):
+        owned['axis'] = [_arr(g['k'])]
+        kw['axis'] = owned['axis'][0]
+    if cls == 'par2d':
+        return T.Parallel2dGeometry(apart, dpart, **kw), owned
+    if cls == 'par3deu':
+        return T.Parallel3dEulerGeometry(apart, dpart, **kw), owned
+    if cls == 'par3dax':
+        return T.Parallel3dAxisGeometry(apart, dpart, **kw), owned
+    rs, rd = float(fq(g['rs'])), float(fq(g['rd']))
+    if cls == 'fan':
+        return T.FanBeamGeometry(apart, dpart, rs, rd, **kw), owned
+    if g['dz'][0] != 0:
+        kw['pitch'] = float(fq(g['dz'])) * 2 * math.pi / theta0
+    if g['z0'][0] != 0:
+        kw['offset_along_axis'] = float(fq(g['z0']))
+    return T.ConeBeamGeometry(apart, dpart, rs, rd, **kw), owned
+
+
+GARBAGE = 7.5
+
+
+def returned_arrays(geom, g, what, a, u):
+    """The array(s) the geometry hands out for `what` ('attr:<name>' or 'result:<query>'); None if not applicable."""
+    kind, name = what.split(':')
+    two_d = g['cls'] in ('par2d', 'fan')
+    if kind == 'attr':
+        name = {'det_axes_init': 'det_axis_init' if two_d else 'det_axes_init'}.get(name, name)
+        if not hasattr(geom, name):
+            return None
+        val = getattr(geom, name)
+        return [val] if isinstance(val, np.ndarray) else [v for v in val if isinstance(v, np.ndarray)]
+    mp, dp = mparam_of(g, a), dparam_of(g, u)
+    dp = list(dp) if isinstance(dp, tuple) else dp
+    if name == 'det_axes':
+        return [_axes_fn(geom)(mp)]
+    if name == 'det_point_position':
+        return [geom.det_point_position(mp, dp)]
+    if name == 'src_position' and not hasattr(geom, 'src_position'):
+        return None
+    return [getattr(geom, name)(mp)]
+
+
+def apply_history(g, hist, a, u):
+    """Replay a history of GeomHistory on a real geometry.  Returns (geometry, original angle grid) or None if a
+    step does not apply to this class / construction route."""
+    geom, owned = build_owned(g, base_theta(g, a))
+    angles0 = np.array(geom.angles, copy=True) if hasattr(geom, 'angles') and 'angles' in owned else None
+    for step in hist:
+        if step['act'] == 'MutateCaller':
+            if step['what'] not in owned:
+                return None
+            for arr in owned[step['what']]:
+                arr[...] = GARBAGE
+        elif step['act'] == 'MutateReturned':
+            arrs = returned_arrays(geom, g, step['what'], a, u)
+            if not arrs:
+                return None
+            for arr in arrs:
+                try:
+                    arr[...] = GARBAGE
+                except ValueError:          # a read-only array refuses the write: nothing happened
+                    pass
+    return geom, angles0
